@@ -159,7 +159,9 @@ def run_system(case, events, callbacks=None, target=None):
     tol = case.get("tol", 1e-8)
     # 'against': the system is configured with the mirrored span; the direction of the run is chosen by integrate(t) alone
     tf_cfg = (2 * t0 - tf) if case.get("against") else tf
-    a = de.OdeSystem(prob.f, y0=y0, t=(dtype(t0), dtype(tf_cfg)), dt=dtype(case["dt0"]), rtol=dtype(tol), atol=dtype(tol), dense_output=bool(case["dense"]), constants=dict(CONSTS))
+    buf = y0.copy()         # the caller reuses its buffer after construction
+    a = de.OdeSystem(prob.f, y0=buf, t=(dtype(t0), dtype(tf_cfg)), dt=dtype(case["dt0"]), rtol=dtype(tol), atol=dtype(tol), dense_output=bool(case["dense"]), constants=dict(CONSTS))
+    buf[...] = dtype(77.0)
     a.method = lc.by_name(case["method"])
     b = driver.Budget(case.get("budget", 20000))
     cbs = list(callbacks or []) + [b]
@@ -168,7 +170,11 @@ def run_system(case, events, callbacks=None, target=None):
         target = dtype(tf)
     try:
         with in_library():
-            if target is None:
+            if case.get("handover") is not None:
+                # two successive calls with the same event functions: the first ends at (or next to) a crossing, the second goes on to the end
+                a.integrate(dtype(case["handover"]), events=events, callback=cbs)
+                a.integrate(dtype(tf) if target is None else target, events=events, callback=cbs)
+            elif target is None:
                 a.integrate(events=events, callback=cbs)
             else:
                 a.integrate(target, events=events, callback=cbs)
@@ -277,6 +283,19 @@ def cells(quick):
                                     if abs(span[0]) > 30:
                                         # single precision far from the origin: one unit in the last place of t is 4e-6, the coarsest time axis in the alphabet
                                         out.append(dict(problem=pname, span=list(span), dt0=dt0, method=m, dense=dense, dtype="float32", events=evs, tol=1e-4))
+    # a crossing at or next to the end point of one integrate() call and the start of the next ('no crossing is reported twice', over successive calls)
+    for pname, spans, dt0 in (("lin", LIN_SPANS, 0.5), ("osc", OSC_SPANS, 0.25)):
+        for span, taus in list(spans.items())[:3] + ([] if quick else list(spans.items())[4:6]):
+            for tau in (taus[1], taus[2]):
+                for kind in ("time", "state"):
+                    for off in (0.0, 1e-10, -1e-10, 1e-6, -1e-6, 0.03):
+                        for dr in (0, 1, -1):
+                            for m in METHODS:
+                                for dense in (True, False):
+                                    if quick and dr != 0 and (off not in (0.0, 1e-10) or m not in ("RK4Solver", "RK45CKSolver")):
+                                        continue
+                                    evs = [dict(kind=kind, tau=tau, s=1.0, dir=dr)]
+                                    out.append(dict(problem=pname, span=list(span), dt0=dt0, method=m, dense=dense, dtype="float64", events=evs, tol=1e-8, handover=tau + off))
     if not quick:
         extra = []
         for c in out:
